@@ -604,7 +604,7 @@ func TestReplay(t *testing.T) {
 			t.Fatal(err)
 		}
 		f = execGraph(nil, root, c)
-	case "glob":
+	case "glob", "unpriv-glob":
 		var c GlobCase
 		if err := json.Unmarshal(v.Case, &c); err != nil {
 			t.Fatal(err)
